@@ -396,7 +396,7 @@ func definitelyNonNilErr(v ssa.Value) bool {
 		// exported sentinel errors of libraries (filepath.ErrBadPattern, io.EOF, filepath.SkipDir) are non-nil
 		if g, ok := x.X.(*ssa.Global); ok && x.Op == token.MUL {
 			n := g.Name()
-			return strings.HasPrefix(n, "Err") || n == "EOF" || n == "SkipDir" || n == "SkipAll"
+			return strings.HasPrefix(n, "Err") || strings.HasPrefix(n, "err") || n == "EOF" || n == "SkipDir" || n == "SkipAll"
 		}
 	case *ssa.Phi:
 		for _, e := range x.Edges {
@@ -425,6 +425,24 @@ func mayReturnNilErr(r *ssa.Return) bool {
 		}
 		if definitelyNonNilErr(v) {
 			continue
+		}
+		// a merge of several error returns (what `return helper(…)` or several `return …, err` become
+		// when they share a block): each incoming value is judged where it comes from
+		if ph, ok := v.(*ssa.Phi); ok && ph.Block() == r.Block() && instrIndex(ph) < instrIndex(r) {
+			all := true
+			for i, e := range ph.Edges {
+				if definitelyNonNilErr(e) {
+					continue
+				}
+				nn, _ := errCheckEdges(fn, e)
+				if len(nn) > 0 && guarded(ph.Block().Preds[i], nn) {
+					continue
+				}
+				all = false
+			}
+			if all {
+				continue
+			}
 		}
 		// a variable: non-nil only if this return sits on its non-nil edge
 		nn, _ := errCheckEdges(fn, v)
